@@ -147,6 +147,9 @@ def check(env, rep, tier):
                        {"file": body["span"]["f"], "line": body["span"]["l"], "fn": path})
         if cfg == "default":
             rep.floor("C17.1", "panic-capable sites analysed in the link-format parser", nsites, 6)
+    include(rep, env, tier, "c16", ("C16.6",), "C17.7",
+            "'to_cow and the character iterator agree': to_cow is checked against the quoted-string grammar (C17.5-6), so the "
+            "character iterator has to follow the same grammar from each of its states - leading quote swallowed, ends at the first unescaped quote")
 
 
 def check_cow_escape_free(prog, rep, body, path):
